@@ -726,6 +726,135 @@ class Contains3d(FnContract):
         return "Projected3dROI(RectangularROI(-1, 1.5, -0.5, 2), perspective matrix).contains3d(x, y, z) with mixed coordinate dtypes"
 
 
+
+# =================================================================================================
+# CategoricalROI.contains, element-wise: labels are elements of a totally ordered set (Int), the selected categories a strictly increasing
+# sequence C[0..n) (np.unique in update_categories).  np.searchsorted is used through its contract; the quantified facts (sortedness, the
+# searchsorted postcondition) are instantiated by hand at the indices the argument needs.
+CASTL = z3.Function('label_after_cast_to_the_dtype_of_the_categories', z3.IntSort(), z3.IntSort())
+
+
+class CategoricalContains(FnContract):
+    property_ids = ('C08', 'C09')
+    target = ROI + ":CategoricalROI.contains"
+    title = "an element is contained iff its label equals one of the selected categories (exact equality of the label as given); no categories: nothing is contained"
+    budget_s = 30
+
+    def configs(self, tier):
+        return [dict(cats='some'), dict(cats='empty'), dict(cats='none')]
+
+    def inputs(self, cfg, P):
+        from pyvc.values import PSlice
+        n = z3.Int('n_categories')
+        C = z3.Array('categories', z3.IntSort(), z3.IntSort())
+        v, w = z3.Int('label_of_the_element'), z3.Int('witness_index')
+        st = St(n=n, C=C, v=v, w=w, idx=None)
+        x = PObj('labels', fields={'val': v, 'shape': ('SHAPE',), 'dtype': PObj('dtype', fields={'of': 'labels'})})
+        x.methods['__getitem__'] = lambda I, self_, key: self_
+        x.methods['__eq__'] = lambda I, self_, o: (o.fields['val'] == self_.fields['val']) if isinstance(o, PObj) and 'val' in o.fields else False
+        st.x = x
+        cats = None
+        if cfg['cats'] != 'none':
+            cats = PObj('sorted-labels', fields={'dtype': PObj('dtype', fields={'of': 'categories'})})
+            cats.methods['__len__'] = lambda I, self_: (0 if cfg['cats'] == 'empty' else n)
+
+            def getitem(I, self_, key):
+                if not (isinstance(key, PObj) and key.cls == 'index'):
+                    raise Unsupported("categories[%r]" % (key,))
+                r = PObj('labels', fields={'val': z3.Select(C, key.fields['val'])})
+                r.methods['__eq__'] = lambda I2, a, b: a.fields['val'] == b.fields['val'] if isinstance(b, PObj) and 'val' in b.fields else False
+                return r
+            cats.methods['__getitem__'] = getitem
+        roi = PObj('CategoricalROI', fields={'categories': cats})
+        ft = FunctionText(ROI, 'CategoricalROI._categorical_helper')
+        roi.methods['_categorical_helper'] = lambda I, self_, indata: Interp(I.path, I.globals, Hooks(name=I.hooks.name), ft).run_function(ft, [self_, indata], {})
+        st.roi = roi
+        return Inputs([roi, x, None], st=st)
+
+    def requires(self, cfg, st):
+        if cfg['cats'] != 'some':
+            return []
+        return [('at-least-one-category', st.n >= 1)]
+
+    def globals_(self, cfg, st):
+        n, C, v, w = st.n, st.C, st.v, st.w
+
+        def searchsorted(I, cats, check, side='left'):
+            ok = cats is st.roi.fields['categories'] and isinstance(check, PObj) and 'val' in check.fields and side == 'left'
+            I.path.check(I.hooks.name + "/call:searchsorted(the-categories, the-labels)", ok)
+            if not ok:
+                raise Unsupported("searchsorted arguments")
+            val = check.fields['val']
+            i = I.path.fresh_int('insertion_index')
+            st.idx = i
+            P2 = I.path
+            # contract of numpy.searchsorted on a sorted array: 0 <= i <= n, everything before i is smaller, everything from i on is not;
+            # instantiated at the witness index and at i itself
+            P2.assume(S.And(0 <= i, i <= n))
+            for j in (w, i):
+                P2.assume(S.Implies(S.And(0 <= j, j < i), z3.Select(C, j) < val))
+                P2.assume(S.Implies(S.And(i <= j, j < n), z3.Select(C, j) >= val))
+            # strictly increasing categories (np.unique), instantiated at (i, w) and (w, i)
+            P2.assume(S.Implies(S.And(0 <= i, i < w, w < n), z3.Select(C, i) < z3.Select(C, w)))
+            P2.assume(S.Implies(S.And(0 <= w, w < i, i < n), z3.Select(C, w) < z3.Select(C, i)))
+            return PObj('index', fields={'val': i})
+
+        def minimum(I, a, b):
+            av = a.fields['val'] if isinstance(a, PObj) else a
+            bv = b.fields['val'] if isinstance(b, PObj) else b
+            return PObj('index', fields={'val': S.If(av <= bv, av, bv)})
+
+        def asarray(I, a, dtype=None):
+            if dtype is None or not (isinstance(a, PObj) and 'val' in a.fields):
+                return a
+            same = isinstance(dtype, PObj) and isinstance(a.fields.get('dtype'), PObj) and dtype.fields.get('of') == a.fields['dtype'].fields.get('of')
+            r = PObj('labels', fields={'val': a.fields['val'] if same else CASTL(a.fields['val']), 'shape': a.fields.get('shape'), 'dtype': dtype})
+            r.methods.update(a.methods)
+            return r
+
+        def zeros(I, shape, dtype=None):
+            return PObj('all-false', fields={'at_e': z3.BoolVal(False), 'shape': shape})
+        return {'numpy.searchsorted': Builtin('np.searchsorted', searchsorted), 'numpy.minimum': Builtin('np.minimum', minimum), 'numpy.asarray': Builtin('np.asarray', asarray),
+                'numpy.asanyarray': Builtin('np.asanyarray', asarray), 'numpy.array': Builtin('np.array', asarray),
+                'numpy.zeros': Builtin('np.zeros', zeros), 'CategoricalComponent': PType('CategoricalComponent'),
+                'isinstance': Builtin('isinstance', lambda I, v_, t: False), 'bool': PType('bool')}
+
+    def ensures(self, cfg, st, result):
+        if cfg['cats'] != 'some':
+            ok = isinstance(result, PObj) and result.cls == 'all-false' and result.fields['shape'] == ('SHAPE',)
+            return [('no-categories:nothing-contained-and-shape-of-the-labels', ok)]
+        if not is_z3(result):
+            return [('answer-is-a-comparison-of-labels', False)]
+        n, C, v, w = st.n, st.C, st.v, st.w
+        i = st.idx
+        k = S.If(i <= n - 1, i, n - 1) if i is not None else None
+        out = [('answer-is-a-comparison-of-labels', i is not None)]
+        if i is None:
+            return out
+        # soundness: a positive answer names a category equal to the label (the index looked at is a valid index)
+        out.append(('contained=>the-label-is-one-of-the-categories', S.Implies(result, S.And(0 <= k, k < n, z3.Select(C, k) == v))))
+        # completeness: if some category (at the arbitrary witness index) equals the label, the answer is positive
+        out.append(('the-label-is-one-of-the-categories=>contained', S.Implies(S.And(0 <= w, w < n, z3.Select(C, w) == v), result)))
+        return out
+
+    def native(self, cfg, val):
+        import os
+        import sys
+        import numpy as np
+        sys.path.insert(0, os.environ.get('GLUE_REPO', '/repo'))
+        from glue.core.roi import CategoricalROI
+        for sel, values in ((['M', 'F'], ['M', 'Male', 'F', 'Fem', '']), (['ab', 'cd'], ['ab', 'abc', 'cd', 'cde', 'a']), (['b'], ['a', 'b', 'c'])):
+            for x in (np.array(values), np.array(values, dtype=object), np.array(values, dtype='U12')):
+                got = np.asarray(CategoricalROI(sel).contains(x, None))
+                want = np.isin(np.asarray(x).astype(str), sel)
+                if got.shape != want.shape or not np.array_equal(got, want):
+                    return (False, "CategoricalROI(%r).contains(%r [%s]) = %s, exact label membership is %s" % (sel, values, x.dtype, got.astype(int).tolist(), want.astype(int).tolist()))
+        return None
+
+    def native_call(self, cfg, val):
+        return "CategoricalROI(['M', 'F']).contains(array(['M', 'Male', 'F', 'Fem', '']), None)"
+
+
 CONTRACTS = [RectContains(), RectToPolygon(), RectMoveTo(), RectTranspose(), CircleContains(), AnnulusContains(), EllipseContains(),
              RangeContains(), RangeMoveTo(), _mv('CircularROI', ('radius',)), _mv('CircularAnnulusROI', ('inner_radius', 'outer_radius')),
-             _mv('EllipticalROI', ('radius_x', 'radius_y', 'theta')), RotateBy(), Contains3d()]
+             _mv('EllipticalROI', ('radius_x', 'radius_y', 'theta')), RotateBy(), Contains3d(), CategoricalContains()]
